@@ -14,7 +14,7 @@ func init() {
 		Title: "Writes need a fresh token issued to the same IP",
 		Decided: "C10.1 in the announce_peer and put handlers every side effect (peer store, announce hook, item store) and every reply/error is dominated by validToken(args.token, source)=true; after validToken=false the handler does nothing but count; " +
 			"C10.2 the token hashes exactly {source IP (16-byte form), interval index, secret} — not the port or the address string — and validation recomputes it for the same address over maxIntervalDelta+1 steps of one interval; " +
-			"C10.3 the window constants give ≥10 min and ≤15 min lifetimes; the secret is random and written only at construction; C10.4 get and get_peers (with a peer store) replies carry a token created for the query source.",
+			"C10.3 the window constants give ≥10 min and ≤15 min lifetimes; the secret is a buffer of constant length ≥ 8 filled by crypto/rand and, like the constants, written only at construction (NewServer or a constructor only it calls); C10.4 get and get_peers (with a peer store) replies carry a token created for the query source.",
 		NotDecided: "SHA-1 unforgeability; the relation between wall-clock time and the rotation grid beyond the constants.",
 		Rules: []*Rule{
 			{ID: "C10.1", Doc: "token check dominates every effect", Floor: 8, Run: c10r1},
